@@ -342,6 +342,14 @@ DevDiff(v, t) ==
            r   == Packed(v, AddMonthsClamp(x, mo))
        IN IF r # tv THEN Dev("diff_fieldwise", r) ELSE <<>>
 
+\* "generic_plus_reads_span_bits": when the span's static type is a union, `datetime + span` and
+\* `datetime - span` are dispatched at run time (DateTime#+ / #-); an inline Date::Span
+\* (months << 32 | uint32(days)) is then read as a count of nanoseconds.
+DevDynDays(v, n, sign) ==
+  LET c == IF n >= 0 THEN <<0, 0, n>> ELSE <<0, 4, 294967296 + n>>
+  IN IF "generic_plus_reads_span_bits" \in Deviations
+     THEN Dev("generic_plus_reads_span_bits", AddClock(v, IF sign = 1 THEN c ELSE NegClock(c))) ELSE <<>>
+
 \* "year_text_unparseable": years are printed with a sign and as many digits as needed, but parsed as
 \* at most four digits without a sign (the ISO year for %G).
 DevYearText(sch, v) ==
@@ -411,6 +419,15 @@ MinusDays ==
        Step("sub_days", <<n>>, {AddDays(cur, 0 - n)},
             DevYearWrap(cur, CivilFromDays(Days(cur) - n)) \o DevSubNegative(cur, 0) \o DevSubOverflow(cur, n) \o DevSubBorrow(cur, n))
 
+\* the same operations reached through dynamic dispatch (the span is typed Date::Span | Time::Span)
+PlusDaysDyn ==
+  /\ Walking /\ cur.k = "dt"
+  /\ \E n \in DaySpans : Step("add_days_dyn", <<n>>, {AddDays(cur, n)}, DevDynDays(cur, n, 1))
+
+MinusDaysDyn ==
+  /\ Walking /\ cur.k = "dt"
+  /\ \E n \in DaySpans : Step("sub_days_dyn", <<n>>, {AddDays(cur, 0 - n)}, DevDynDays(cur, n, -1))
+
 PlusMonths ==
   /\ Walking
   /\ \E k \in MonthSpans :
@@ -477,7 +494,7 @@ SpanRoundTrip ==
   /\ Gen([op |-> "rt_span", from |-> sp, arg |-> "", exp |-> {sp}, devs |-> <<>>])
   /\ UNCHANGED vars
 
-Next == \/ PlusDays \/ MinusDays \/ PlusMonths \/ MinusMonths \/ PlusYears \/ MinusYears
+Next == \/ PlusDays \/ MinusDays \/ PlusDaysDyn \/ MinusDaysDyn \/ PlusMonths \/ MinusMonths \/ PlusYears \/ MinusYears
         \/ PlusClock \/ MinusClock \/ DiffAdd
         \/ FormatDate \/ FormatStamp \/ SpanRoundTrip
 
